@@ -27,3 +27,12 @@ func (b *bus) vt(event string, kv ...interface{}) {
 	out = append(out, "buf", buf, "nsubs", len(b.subscriptions), "root", b.eventch == nil)
 	veriftrace.Emit("bus", fmt.Sprintf("%p", b), event, out...)
 }
+
+// vgate is a scheduling point of the bus's own loop (not of subscribers) that a
+// verification harness may hold: "fanout" is reached after an event has been
+// received and before it is handed to any subscriber.
+func (b *bus) vgate(name string) {
+	if b.eventch == nil {
+		veriftrace.Gate("bus." + name)
+	}
+}
